@@ -73,6 +73,7 @@ def cases(tier, seed):
                         add(sset, rset, "mix", False, True, "R")
     # large cases (sizes beyond the small alphabet): many unrestricted variables; many restricted combinations
     out.append({"id": "large-17-unrestricted-variables", "block": "L", "large": "many_vars", "order": [], "restricted": [], "pfilter": False, "crev": False, "frev": False, "seed": seed})
+    out.append({"id": "large-12-periods", "block": "L", "large": "many_periods", "order": [], "restricted": [], "pfilter": False, "crev": False, "frev": False, "seed": seed})
     out.append({"id": "large-272-restricted-combinations", "block": "L", "large": "many_combos", "order": [], "restricted": [], "pfilter": False, "crev": False, "frev": False, "seed": seed})
     # histories: models that share every name but differ in the filter body, built in ONE process
     variants = [False, True, "alt"]
@@ -108,6 +109,18 @@ def build_large(case):
         for n in snames:
             L.append(f"def next_{n}({n}):\n    return {n}")
             funcs.append(f"next_{n}")
+    elif case["large"] == "many_periods":
+        # twelve periods (two-digit period indices), period-dependent utility and filter
+        T_ = 12
+        states = [("s", "D(3)"), ("g", "D(2)"), ("wealth", "Lin(1, 5, 4)")]
+        choices = [("d", "D(2)"), ("cons", "Lin(0.5, 2.0, 3)")]
+        L = ["def utility(s, g, wealth, d, cons, _period):\n    return jnp.log(cons) + 0.31 * d * (s + 1) + 0.07 * g + 0.0137 * wealth - 0.017 * _period * d + 0.003 * _period * _period",
+             "def r_filter(s, d, _period):\n    return jnp.logical_and(s <= 1 + _period, jnp.logical_or(d == 0, s < 2))",
+             "def next_s(s):\n    return s",
+             "def next_g(g):\n    return g",
+             "def next_wealth(wealth, cons, d):\n    return 0.9 * (wealth - 0.5 * cons) + 0.6 + 0.3 * d",
+             "def c_constraint(cons, wealth):\n    return cons <= wealth + 0.2371"]
+        funcs = ["utility", "r_filter", "next_s", "next_g", "next_wealth", "c_constraint"]
     else:
         # two restricted states with 17 x 16 labels (272 combinations, all with a passing choice) + restricted choice
         states = [("exper", "D(17)"), ("tenure", "D(16)"), ("wealth", "Lin(1, 5, 4)")]
@@ -120,7 +133,7 @@ def build_large(case):
              "def c_constraint(cons, wealth):\n    return cons <= wealth + 0.2371"]
         funcs = ["utility", "et_filter", "next_exper", "next_tenure", "next_wealth", "c_constraint"]
     prelude = family.PRELUDE.replace('def D(n): return', 'def D(n): return')
-    text = prelude + "\n\n".join(L) + "\n\nMODEL = Model(n_periods=2,\n    functions={%s},\n    choices={%s},\n    states={%s})\n" % (
+    text = prelude + "\n\n".join(L) + "\n\nMODEL = Model(n_periods=" + str(12 if case["large"] == "many_periods" else 2) + ",\n    functions={%s},\n    choices={%s},\n    states={%s})\n" % (
         ", ".join(f'"{f}": {f}' for f in funcs), ", ".join(f'"{n}": {g}' for n, g in choices), ", ".join(f'"{n}": {g}' for n, g in states))
     ns = {}
     exec(text, ns)
